@@ -68,17 +68,35 @@ def free_port():
     return p
 
 
+# communities that are NOT b"public": other words, prefixes/extensions, another case,
+# padding, and strings that only differ by octets outside ASCII / by a NUL
+FOREIGN = (b"private", b"publi", b"publicx", b"", b"PUBLIC", b"Public", b"public ", b" public", b"public\x00", b"\x00public", b"p\x00ublic",
+           b"pub\xfflic", b"public\x80", b"\xe2\x80\x8bpublic", b"public\xc2\xa0", b"publi\xe7", b"\xffpublic\xff", b"publ\xc3\xaec", b"public\n", b"public\r\n")
+
+
+PORT = [0]
+
+
 def gen_item(rng, i):
+    it = _gen_item(rng, i)
+    if PORT[0]:
+        it["port"] = PORT[0]
+    return it
+
+
+def _gen_item(rng, i):
     r = rng.random()
     n = rng.choice((0, 0, 1, 2, 3, 6))
     payload = [((1, 3, 6, 1, 4, 1, 4242, 2, j), gen.gen_value(rng)) for j in range(n)]
     vbs = [(UPTIME, ("tt", rng.choice((0, 1, 4242, 2**32 - 1)))), (TRAPOID, ("oid", (1, 3, 6, 1, 4, 1, 4242, 0, i)))] + payload
     pdu = {"type": ber.PDU_TRAP, "request_id": 1000 + i, "error_status": 0, "error_index": 0, "varbinds": vbs}
     src = "127.0.0.%d" % rng.choice((1, 2, 3, 4))
+    # a particular source port now and then: the ends of the range, the SNMP ports, a low one
+    PORT[0] = rng.choice((65535, 65534, 1, 161, 162, 1023, 1024, 32768, 49152)) if rng.random() < 0.12 else 0
     if r < 0.55:
         return {"cls": "valid", "src": src, "data": ber.enc_community_message(1, b"public", pdu), "vbs": vbs, "i": i}
     if r < 0.7:
-        return {"cls": "foreign", "src": src, "data": ber.enc_community_message(1, rng.choice((b"private", b"publi", b"publicx", b"")), pdu), "vbs": vbs, "i": i}
+        return {"cls": "foreign", "src": src, "data": ber.enc_community_message(1, rng.choice(FOREIGN), pdu), "vbs": vbs, "i": i}
     if r < 0.85:
         raw = ber.enc_community_message(1, b"public", pdu)
         cut = rng.randint(1, len(raw) - 1)
@@ -136,15 +154,19 @@ def run_sequence(R, items, attempt=0, v6=False):
             register_trap_callback(callback, listen_address="::1" if v6 else "127.0.0.1", port=port, credentials=V2C("public"), loop=loop)
             pause = 0.004 * (1 + 4 * attempt)
             for it in items:
-                s = socks.get(it["src"])
+                key = (it["src"], it.get("port", 0))
+                s = socks.get(key)
                 if s is None:
-                    if v6:
-                        s = socket.socket(socket.AF_INET6, socket.SOCK_DGRAM)
-                        s.bind(("::1", 0))
-                    else:
-                        s = socket.socket(socket.AF_INET, socket.SOCK_DGRAM)
-                        s.bind((it["src"], 0))
-                    socks[it["src"]] = s
+                    host, want_port = key
+                    s = socket.socket(socket.AF_INET6 if v6 else socket.AF_INET, socket.SOCK_DGRAM)
+                    try:
+                        s.bind(("::1" if v6 else host, want_port if want_port != port else 0))
+                        if want_port:
+                            stats["particular_source_ports"] = stats.get("particular_source_ports", 0) + 1
+                    except OSError:
+                        # taken / not permitted here: any port will do
+                        s.bind(("::1" if v6 else host, 0))
+                    socks[key] = s
                 it["sport"] = s.getsockname()[1]
                 before = len(events)
                 s.sendto(it["data"], ("::1" if v6 else "127.0.0.1", port))
@@ -263,7 +285,7 @@ def classify(problems, stats):
 
 
 def run_items(R, items, label, v6=False):
-    case = {"v6": v6, "items": [{"cls": it["cls"], "src": it["src"], "data": "hex:" + it["data"].hex(), "i": it["i"], "vbs": rig.jsonable(it["vbs"])} for it in items]}
+    case = {"v6": v6, "items": [{"cls": it["cls"], "src": it["src"], "port": it.get("port", 0), "data": "hex:" + it["data"].hex(), "i": it["i"], "vbs": rig.jsonable(it["vbs"])} for it in items]}
     problems, stats = run_sequence(R, items, v6=v6)
     timing = {"missing"}
     if problems and {k for k, _ in problems} <= timing:
@@ -274,6 +296,7 @@ def run_items(R, items, label, v6=False):
     kinds = tuple(sorted({v[1][0] for it in items if it["vbs"] for v in it["vbs"][2:]}))
     R.case(("c19", shape, kinds), stats["valid"] >= 1, sample={"label": label, "classes": [it["cls"] for it in items], "sources": [it["src"] for it in items], "delivered": stats["valid"] - sum(1 for k, _ in problems if k == "missing")} if R.evaluations % 23 == 0 else None)
     R.mon["datagrams_sent"] += len(items)
+    R.mon["particular_source_ports_bound"] += stats.get("particular_source_ports", 0)
     R.mon["loop_exception_events"] += stats.get("exc_events", 0)
     if problems:
         R.violation(case, "; ".join(d for _, d in problems[:3]), classify(problems, stats))
@@ -288,6 +311,8 @@ def run_items(R, items, label, v6=False):
 def run(R):
     core.install_socket_audit()
     n = N_SEQ[R.tier]
+    if R.shard == 1 % R.nshards:
+        fixed_sequences(R)
     for i in range(n):
         if not R.mine(i):
             continue
@@ -324,6 +349,32 @@ def run(R):
         run_items(R, items, "gen", v6=v6)
 
 
+def fixed_sequences(R):
+    """A valid notification from each particular source port (the ends of the port
+    range included), and every foreign community in front of a valid notification."""
+    rng = R.rng("ports")
+    items = []
+    for j, port in enumerate((65535, 65534, 1, 161, 162, 1023, 1024, 32768, 49152, 65535)):
+        it = _gen_item(rng, j)
+        while it["cls"] != "valid":
+            it = _gen_item(rng, j)
+        it["port"] = port
+        it["src"] = "127.0.0.%d" % (1 + j % 3)
+        items.append(it)
+    run_items(R, items, "ports")
+    R.mon["particular_port_sequences"] += 1
+    items = []
+    for j, comm in enumerate(FOREIGN):
+        it = _gen_item(rng, 2 * j)
+        while it["cls"] != "valid":
+            it = _gen_item(rng, 2 * j)
+        pdu = {"type": ber.PDU_TRAP, "request_id": 1000 + 2 * j + 1, "error_status": 0, "error_index": 0, "varbinds": it["vbs"]}
+        items.append({"cls": "foreign", "src": it["src"], "data": ber.enc_community_message(1, comm, pdu), "vbs": it["vbs"], "i": 2 * j + 1})
+        items.append(it)
+    run_items(R, items, "foreign-communities")
+    R.mon["foreign_community_sequences"] += 1
+
+
 def replay(R, v):
     items = []
     for it in v["case"]["items"]:
@@ -337,5 +388,5 @@ def replay(R, v):
                 elif isinstance(x, list):
                     x = tuple(x)
                 vbs.append((tuple(o), (kind, x)))
-        items.append({"cls": it["cls"], "src": it["src"], "data": bytes.fromhex(it["data"][4:]), "i": it["i"], "vbs": vbs})
+        items.append({"cls": it["cls"], "src": it["src"], "port": it.get("port", 0), "data": bytes.fromhex(it["data"][4:]), "i": it["i"], "vbs": vbs})
     run_items(R, items, "replay", v6=bool(v["case"].get("v6")))
